@@ -469,3 +469,35 @@ func Verif_C12_ACL() {
 	}
 	vr.Reach("end")
 }
+
+// Verif_C12_StreamWithErrors: a pipeline in which one command fails (unknown command, wrong arity, wrong
+// type, bad number - chosen by name) between commands that succeed, delivered in one write or cut at an
+// arbitrary byte offset: every command - the failing one with an error reply - is answered exactly
+// once, in order; nothing that follows an error is dropped.
+func Verif_C12_StreamWithErrors() {
+	s := verifServer()
+	verifPreset(s, 0, "k", "val")
+	verifPreset(s, 0, "l", []string{"a"})
+	bad := [][]string{{"NOSUCHCOMMAND", "x"}, {"GET"}, {"INCR", "k"}, {"LPUSH", "k", "v"}, {"EXPIRE", "k", "abc"}, {"GET", "l", "extra"}}[vr.Choose("bad", 6)]
+	stream := string(encCmd("GET", "k")) + string(encCmd(bad...)) + string(encCmd("SET", "n", "v2")) + string(encCmd("GET", "n")) + string(encCmd("PING"))
+	c1 := vr.Choose("cut", len(stream)+1)
+	var in [][]byte
+	for _, seg := range []string{stream[:c1], stream[c1:]} {
+		if seg != "" {
+			in = append(in, []byte(seg))
+		}
+	}
+	fc := &fakeConn{input: in}
+	s.handleConnection(fc)
+	out := string(fc.written)
+	// reply 1, an error line, replies 3..5
+	pre, post := "$3\r\nval\r\n", "+OK\r\n$2\r\nv2\r\n+PONG\r\n"
+	ok := len(out) >= len(pre)+len(post)+3 && out[:len(pre)] == pre && out[len(out)-len(post):] == post
+	if ok {
+		mid := out[len(pre) : len(out)-len(post)]
+		r := vr.Decode([]byte(mid))
+		ok = r.OK && r.Kind == '-'
+	}
+	vr.Assert(ok, "C12.stream_with_errors.every_command_answered_once_in_order")
+	vr.Reach("end")
+}
